@@ -41,7 +41,7 @@ func init() {
 		Run: run,
 		Floors: func(t string) map[string]int64 {
 			return map[string]int64{"pair.hop": 500, "pair.axis": 300, "pair.ordinary": 300, "history.calls": 20000, "history.repeat_call": 2000, "history.to_registered_wgs84": 1000, "history.failing_input": 1000, "pair.one_side_cannot_be_set_up": 100,
-				"structure.failing_k": 10000, "structure.shared_backing_array": 1000, "longpath.vertices>=2048": 30, "structure.nil_transformer": 1000, "structure.real_transformer": 1000, "structure.*Bounds": 100, "structure.GeometryCollection": 100, "structure.MultiPolygon": 100, "structure.MultiLineString": 100}
+				"structure.failing_k": 10000, "structure.shared_backing_array": 1000, "longpath.vertices>=2048": 15, "structure.nil_transformer": 1000, "structure.real_transformer": 1000, "structure.*Bounds": 100, "structure.GeometryCollection": 100, "structure.MultiPolygon": 100, "structure.MultiLineString": 100}
 		},
 	})
 }
